@@ -22,6 +22,7 @@ class Driver:
         self.app = self.loop.run_until_complete(mk())
         self.ez = self.app._ezsp
         self.base_callbacks = len(self.ez._callbacks)
+        self.monitors = []       # other users of EZSP's callback registry: [id, callback, alive, frames seen since registration]
         self.log = []
         self.steps = []
         self.mark = 0
@@ -122,6 +123,36 @@ class Driver:
             self.loop.tick()
         self.end()
 
+    def churn(self):
+        """another component uses the callback registry while an operation may be in progress: the oldest of its
+        callbacks is removed (if any) and a new one registered"""
+        alive = [m for m in self.monitors if m[2]]
+        if alive:
+            self.ez.remove_callback(alive[0][0])
+            alive[0][2] = False
+        seen = []
+
+        def cb(name, args, _seen=seen):
+            _seen.append(name)
+        self.monitors.append([self.ez.add_callback(cb), cb, True, seen])
+        self.end()
+
+    def monitors_ok(self, probe=True):
+        """every monitor that is still registered is still reachable under its id and still gets frames"""
+        import bellows.types as t
+        problems = []
+        alive = [m for m in self.monitors if m[2]]
+        for m in alive:
+            if self.ez._callbacks.get(m[0]) is not m[1]:
+                problems.append("a callback registered by another component is no longer registered under its id")
+        if probe and alive and not problems:
+            before = [len(m[3]) for m in alive]
+            self.ez.handle_callback("childJoinHandler", [t.uint8_t(0), t.Bool.true, t.EmberNodeId(1), t.EUI64.convert("00:11:22:33:44:55:66:77"), t.EmberNodeType.END_DEVICE])
+            for m, b in zip(alive, before):
+                if len(m[3]) != b + 1:
+                    problems.append("a callback registered by another component no longer receives frames")
+        return problems
+
     def cancel(self):
         if self.task is not None and not self.task.done():
             self.task.cancel()
@@ -130,7 +161,8 @@ class Driver:
         self.end()
 
     def residue(self):
-        return [sum(len(v) for v in self.ez._stack_status_listeners.values()), len(self.ez._callbacks) - self.base_callbacks]
+        alive = sum(1 for m in self.monitors if m[2])
+        return [sum(len(v) for v in self.ez._stack_status_listeners.values()), len(self.ez._callbacks) - self.base_callbacks - alive]
 
     def close(self):
         if self.task is not None and not self.task.done():
@@ -162,7 +194,12 @@ def run_events(events):
                 d.timeout()
             elif e[0] == "cancel":
                 d.cancel()
-        return {"steps": [[list(x) for x in st] for st in d.steps], "residue": d.residue()}
+            elif e[0] == "churn":
+                d.churn()
+        out = {"steps": [[list(x) for x in st] for st in d.steps], "residue": d.residue()}
+        if d.monitors:
+            out["monitor_problems"] = d.monitors_ok()
+        return out
     except BaseException as e:  # noqa
         import traceback
         return {"crash": repr(e) + traceback.format_exc()[-600:]}
@@ -183,7 +220,7 @@ class Check(PropertyCheck):
     shard = 400
     rule = ("for each operation {form, leave, bring-up, scan}: all orders (up to a length bound) of {command response accepted / refused / "
             "not-joined, matching status event, non-matching status events, result callbacks, completion callback ok / failed, timeout "
-            "expiry, caller cancellation}, callbacks delivered singly and back to back, events before the operation is started; then "
+            "expiry, caller cancellation}, other components registering / removing callbacks around and during the operation, callbacks delivered singly and back to back, events before the operation is started; then "
             "repeated operations of random kinds; non-trivial = the operation is started and at least one event follows; distinct by history")
     assumptions = ["operations are sequential (the property speaks of repeated operations); two concurrent waiters on one status are outside",
                    "status callbacks are injected at EZSP.handle_callback (decoding is C07/C08's subject)"]
@@ -216,6 +253,16 @@ class Check(PropertyCheck):
                 evs.append(("cbs", [rng.choice(FRAMES)]))
                 evs.append(("timeout",))
                 cases.append(evs)
+        # other components using the callback registry while an operation is in flight (registered before it, removed and
+        # re-registered during it): the operation still completes / cleans up, and they keep receiving frames
+        for k in KINDS:
+            tails = [[("cbs", [("item", 11)]), ("cbs", [("item", 12), ("complete", 1)])], [("cbs", [("status", UP)]), ("cbs", [("status", DOWN)])],
+                     [("cancel",)], [("timeout",)]]
+            for tail in tails:
+                for pos in range(0, 4):
+                    evs = [("churn",), ("churn",), ("start", k), ("reply", 1)] + tail
+                    evs.insert(2 + pos, ("churn",))
+                    cases.append(evs + [("churn",), ("start", k), ("reply", 1)] + tail)
         # repeated operations
         for _ in range(150 if tier == "quick" else 2000):
             evs = []
@@ -255,6 +302,8 @@ class Check(PropertyCheck):
                 out.append("(2, 0, [" + "; ".join(fr) + "])")
             elif e[0] == "timeout":
                 out.append("(3, 0, [])")
+            elif e[0] == "churn":
+                continue          # not an event of the operation: the model does not see it
             else:
                 out.append("(4, 0, [])")
         return "[" + "; ".join(out) + "]"
@@ -263,7 +312,9 @@ class Check(PropertyCheck):
         if "crash" in obs:
             return [-99]
         z = []
-        for st in obs["steps"]:
+        for ev, st in zip(case, obs["steps"]):
+            if ev[0] == "churn":
+                continue
             for e in st:
                 if e[0] == "cmd":
                     name = e[1]
@@ -322,6 +373,8 @@ class Check(PropertyCheck):
             if ev[0] in ("timeout",) and active is not None and active["reply"] == 1 and not active["event"] \
                     and active["k"] != "scan" and not dones:
                 return f"{active['k']}: the operation timeout expired but the operation did not raise"
+        if obs.get("monitor_problems"):
+            return f"after the operations: {obs['monitor_problems'][0]}"
         if obs["residue"] != [0, 0] and active is None:
             return f"listeners/callbacks left registered after the operations ended: {obs['residue']}"
         return None
